@@ -207,13 +207,23 @@ class System:
         self.idx = LogicalFile.LogicalIndex(self.f)
         self.idx.__enter__()
         self.lf = self.idx.logical_files[0]
+        # one selector object per selection for the life of the system, as the tools hold one --frame-slice object for
+        # every frame array of every logical file they read
+        self.selectors = {}
+
+    def selector(self, sel):
+        key = repr(sel)
+        if key not in self.selectors:
+            self.selectors[key] = make_selection(sel)
+        return self.selectors[key]
 
     def canon(self):
         fr = self.idx._logical_record_index.rp66v1_file
         vr, lrsh = fr.visible_record, fr.logical_record_segment_header
         arrays = tuple((len(ch.array), isinstance(ch.array, np.ma.MaskedArray))
                        for fa in self.lf.log_pass.frame_arrays for ch in fa.channels)
-        return arrays + (self.f.tell(), vr.position, lrsh.position, lrsh.attributes.attributes)
+        sels = tuple((k, bfs.generic_state(v, depth=1)) for k, v in sorted(self.selectors.items()) if v is not None)
+        return arrays + (self.f.tell(), vr.position, lrsh.position, lrsh.attributes.attributes, sels)
 
 
 def step(system, op, check):
@@ -223,7 +233,7 @@ def step(system, op, check):
     n = lp['types'][ti]['n']
     fa = system.lf.log_pass.frame_arrays[ti]
     chsel = None if chs is None else set(chs)
-    selector = make_selection(sel)
+    selector = system.selector(sel)
     try:
         got_n = system.lf.populate_frame_array(fa, selector, None if chsel is None else set(chsel))
     except Exception as err:  # noqa
